@@ -19,3 +19,13 @@ ASSUMPTIONS = ["method names are valid UTF-8", "ids are JSON string or number li
 
 def run(ctx, res):
     wirelib.run_wire(ctx, res, "c13")
+    if not ctx.get("replay"):
+        # what reaches the peer when several goroutines push at once over framings that build their frames in a
+        # per-channel buffer: whole, valid, one-line messages (scripted probe of harness/conc)
+        ok, log = C.go_build_conc()
+        if not ok:
+            res.violation("corr:harness-build", "the scheduling harness does not build against /repo",
+                          dict(kind="broken-correspondence", what="go1.26 test -c -tags verif", log=log[-3000:]),
+                          found_input=False)
+        else:
+            C.run_probes(res, "C13", ["wire-concurrent-pushes"])
